@@ -703,27 +703,35 @@ func manyGlyphsFamily(budget time.Duration) mc.Family {
 		{"all glyphs, scrambled codes", func(i, n int) int { return (i * 37) % 256 }},
 	}
 	return mc.Family{
-		Name: "glyphlist/many-glyphs", Items: len(sizes) * len(pats) * 2 * 2, Budget: budget,
-		Rule: fmt.Sprintf("item = number of glyphs %v x encoding pattern (none; every third glyph at descending codes; every second at ascending codes; the alphabetically last five; only the middle one; all at scrambled codes) x with/without .notdef x {type1.Font, afm.Metrics}; names are not in insertion order; GlyphList checked against the definition (each glyph once, .notdef first, encoded glyphs in code order, the rest alphabetically, length = NumGlyphs); non-trivial = every case", sizes),
+		Name: "glyphlist/many-glyphs", Items: len(sizes) * len(pats) * 2 * 2 * 3, Budget: budget,
+		Rule: fmt.Sprintf("item = number of glyphs %v x encoding pattern (none; every third glyph at descending codes; every second at ascending codes; the alphabetically last five; only the middle one; all at scrambled codes) x with/without .notdef x {type1.Font, afm.Metrics} x {plain names; seven names that sort before '.notdef' ($a + -x .a .Z ! ,c) mixed in; the same with a nil encoding}; names are not in insertion order; GlyphList checked against the definition (each glyph once, .notdef first, encoded glyphs in code order, the rest alphabetically, length = NumGlyphs); non-trivial = every case", sizes),
 		Body: func(c *mc.Ctx, item int) mc.Verdict {
 			isAfm := item%2 == 1
 			withNotdef := (item/2)%2 == 1
 			p := pats[(item/4)%len(pats)]
-			n := sizes[item/4/len(pats)]
+			n := sizes[(item/4/len(pats))%len(sizes)]
+			variant := item / 4 / len(pats) / len(sizes)
 			names := make([]string, n)
 			for i := range names {
 				// alphabetical order differs from numeric and from insertion order
 				names[i] = fmt.Sprintf("g%03d%c", (i*7919)%1000, 'a'+rune(i%26))
+			}
+			if variant >= 1 {
+				// names on both sides of ".notdef" in byte order
+				copy(names, []string{"$a", "+", "-x", ".a", ".Z", "!", ",c"})
 			}
 			sort.Strings(names)
 			enc := make([]string, 256)
 			for i := range enc {
 				enc[i] = ".notdef"
 			}
+			if variant == 2 {
+				enc = nil
+			}
 			present := map[string]bool{}
 			for i, nm := range names {
 				present[nm] = true
-				if code := p.code(i, n); code >= 0 && enc[code] == ".notdef" {
+				if code := p.code(i, n); code >= 0 && enc != nil && enc[code] == ".notdef" {
 					enc[code] = nm
 				}
 			}
@@ -758,7 +766,7 @@ func manyGlyphsFamily(budget time.Duration) mc.Family {
 				list, count = f.GlyphList(), f.NumGlyphs()
 			}
 			c.Step()
-			what := fmt.Sprintf("%d glyphs, %s, .notdef present=%v, %s", n, p.name, withNotdef, map[bool]string{true: "afm.Metrics", false: "type1.Font"}[isAfm])
+			what := fmt.Sprintf("%d glyphs (%s), %s, .notdef present=%v, %s", n, []string{"plain names", "names around .notdef", "names around .notdef, nil encoding"}[variant], p.name, withNotdef, map[bool]string{true: "afm.Metrics", false: "type1.Font"}[isAfm])
 			if class, msg := geomref.CheckGlyphList(list, present, enc, count); class != "" {
 				v := mc.Fail("C19:"+map[bool]string{true: "afm", false: "type1"}[isAfm]+".GlyphList:many-glyphs:"+class, what+": "+msg)
 				v.Render = what
